@@ -30,7 +30,7 @@ public:
         return {1, 0};
     }
     std::vector<std::pair<std::string, s64>> simplest_knobs() const override {
-        return {{"guest_path", 0}};
+        return {{"guest_path", 0}, {"reenter", 0}};
     }
 
     Plan generate(u64 seed, const Tier& tier) override {
@@ -39,6 +39,7 @@ public:
         bool comp = r.chance(1, 4);
         p.set_knob("comp", comp);
         p.set_knob("guest_path", (s64)r.chance(1, 2));
+        p.set_knob("reenter", (s64)r.chance(1, 3)); // the host's receive handler reads the reply from inside the callback
         int n = (int)r.range(3, tier.thorough ? 80 : 36);
         const char* host_ops[] = {"hsend", "hrecv", "hpeek", "hsem", "hclr", "hmask", "hget", "run"};
         const char* dsp_ops[] = {"dsend", "drecv", "dpeek", "dsem", "dack", "dmask", "ddis", "dstat"};
@@ -236,6 +237,8 @@ public:
         Hasher log;
         Facade f(plan.knob("guest_path", 0) != 0);
         auto& t = *f.b.t;
+        const bool reenter = plan.knob("reenter", 0) != 0;
+        f.b.reenter_mode = reenter ? 1 : 0;
         ApbpModel c2d, d2c; // CPU->DSP, DSP->CPU
         bool judged_send = false, judged_sem = false, host_op = false, dsp_op = false;
 
@@ -329,6 +332,10 @@ public:
                 bool irq = d2c.send(ch, (u16)s.arg(1));
                 f.dsp_write((u16)(0x0C0 + 4 * ch), (u16)s.arg(1), vg);
                 judged_send = true;
+                if (irq && reenter) {
+                    d2c.recv(ch); // the handler consumed the reply before the send returned
+                    out.probes["reply_received_inside_handler"]++;
+                }
                 u64 calls = f.b.handler_calls[ch] - h0[ch];
                 if (irq && calls != 1)
                     out.violate(calls ? "C14.irq-spurious" : "C14.irq-missing",
